@@ -684,8 +684,10 @@ class Stream(AbstractStream):
         """
         if isinstance(stream_data, StreamData):
             self._imol.empty() # Current flow rates are replaced; they must not constrain the new phases
-            self.phases = stream_data._phases
-            self._imol.copy_like(stream_data._imol)
+            self.phases = phases = stream_data._phases
+            imol = stream_data._imol
+            if len(phases) == 1 and isinstance(imol, MaterialIndexer): imol = imol.get_phase(*phases)
+            self._imol.copy_like(imol)
             self._thermal_condition.copy_like(stream_data)
         else:
             raise ValueError(f'stream_data must be a StreamData object; not {type(stream_data).__name__}')
